@@ -19,7 +19,7 @@ global size_of usize == 8;
 VX_OPEN = 'pub mod vx {\nuse vstd::prelude::*;\n'
 VX_CLOSE = '}\nuse vx::*;\n'
 VP_OPEN = ('pub mod vp {\nuse vstd::prelude::*;\n')
-VP_CLOSE = '}\nuse vp::*;\nbroadcast use {vx::vx_axioms, vp::field_ops, vp::group_ops, vp::ax_np2, vp::sum_postcondition, vp::ax_vx_same, vp::ax_field_clone};\n'
+VP_CLOSE = '}\nuse vp::*;\nbroadcast use {vx::vx_axioms, vp::field_ops, vp::group_ops, vp::ax_np2, vp::sum_postcondition, vp::ax_vx_same, vp::ax_field_clone, vp::ax_point_clone};\n'
 FOOTER = '\n} // verus!\nfn main() {}\n'
 
 
